@@ -98,6 +98,8 @@ type Extractor struct {
 	inlineVals map[*ast.CallExpr]*inlineFrame
 	stack      []*ast.CallExpr                     // inlined helper calls being expanded (outermost first)
 	synthRet   map[*ast.ReturnStmt]*ast.AssignStmt // returns made from `r = e; break L` of a one-pass block
+	fnIDs      map[*types.Func]int64               // function / method values held in locals are tracked as known values
+	fnByID     map[int64]*types.Func
 }
 
 // New creates an extractor.
@@ -416,8 +418,46 @@ func (e *Extractor) exprTokens(info *types.Info, x ast.Node) []*node {
 	return out
 }
 
+// fnValue encodes a function or method value as a known value.
+func (e *Extractor) fnValue(f *types.Func) int64 {
+	if e.fnIDs == nil {
+		e.fnIDs, e.fnByID = map[*types.Func]int64{}, map[int64]*types.Func{}
+	}
+	if id, ok := e.fnIDs[f]; ok {
+		return id
+	}
+	id := int64(1)<<40 + int64(len(e.fnIDs))
+	e.fnIDs[f], e.fnByID[id] = id, f
+	return id
+}
+
+// calleeOf resolves the callee of c: statically, or through a local that holds
+// a function or method value known on the path being extracted
+// (`readScore := r.ReadFloat; if t == 5 { readScore = r.ReadDouble }; readScore()`).
+func (e *Extractor) calleeOf(info *types.Info, c *ast.CallExpr) *types.Func {
+	if f := core.CalleeFunc(info, c); f != nil {
+		return f
+	}
+	if id, ok := ast.Unparen(c.Fun).(*ast.Ident); ok {
+		if v, isVar := info.Uses[id].(*types.Var); isVar {
+			if k, has := e.known[v]; has {
+				if f := e.fnByID[k]; f != nil {
+					return f
+				}
+			}
+			// a parameter of an inlined helper bound to a known function value
+			if k, has := e.consts[v]; has {
+				if f := e.fnByID[k]; f != nil {
+					return f
+				}
+			}
+		}
+	}
+	return nil
+}
+
 func (e *Extractor) callToken(info *types.Info, c *ast.CallExpr) *node {
-	f := core.CalleeFunc(info, c)
+	f := e.calleeOf(info, c)
 	if f == nil {
 		// conversion, builtin or dynamic call
 		if tv, ok := info.Types[c.Fun]; ok && tv.IsType() {
@@ -425,6 +465,20 @@ func (e *Extractor) callToken(info *types.Info, c *ast.CallExpr) *node {
 		}
 		if _, ok := core.Callee(info, c).(*types.Builtin); ok {
 			return nil
+		}
+		if id, ok := ast.Unparen(c.Fun).(*ast.Ident); ok {
+			if v, isVar := info.Uses[id].(*types.Var); isVar && !v.IsField() {
+				if _, isSig := v.Type().Underlying().(*types.Signature); isSig && e.S.Carrier != nil {
+					if e.streamFreeTable(info, v) {
+						// looked up in a package-level table of functions none of which can
+						// reach the stream: whichever entry it is, nothing is consumed
+						return nil
+					}
+					// a function value in a local may be a bound method of the stream object
+					e.undec("%s: call through the function value `%s`, whose target is not known on this path", e.C.Pos(c.Pos()), id.Name)
+					return nil
+				}
+			}
 		}
 		e.carrierCheck(info, c, "dynamic call")
 		return nil
@@ -503,7 +557,17 @@ func (e *Extractor) callToken(info *types.Info, c *ast.CallExpr) *node {
 		e.depth++
 		saveObj, saveVal := e.tagVar, e.tagVal
 		e.tagVar, e.tagVal = nil, nil
-		e.bindParams(info, c, fn)
+		bc := c
+		if fn.Decl.Recv != nil && core.CalleeFunc(info, c) == nil {
+			// reached through a function value: a method EXPRESSION `(*T).M` takes the
+			// receiver as its first argument
+			if sig, ok := f.Type().(*types.Signature); ok && len(c.Args) == sig.Params().Len()+1 {
+				cc := *c
+				cc.Args = c.Args[1:]
+				bc = &cc
+			}
+		}
+		e.bindParams(info, bc, fn)
 		fr := &inlineFrame{fn: fn}
 		e.frames = append(e.frames, fr)
 		e.zeroNamedResults(fn)
@@ -794,7 +858,7 @@ func mergeAliases(a, b []string) []string {
 }
 
 func (e *Extractor) callIsPrim(info *types.Info, c *ast.CallExpr) bool {
-	f := core.CalleeFunc(info, c)
+	f := e.calleeOf(info, c)
 	if f == nil {
 		return false
 	}
@@ -865,6 +929,19 @@ func (e *Extractor) refOfMark(info *types.Info, x ast.Expr, mark bool) (string, 
 // condKey renders an if condition: (".field!=0", negated?) for zero tests of
 // tracked fields, "?" otherwise.
 func (e *Extractor) condKey(info *types.Info, cond ast.Expr) (key string, swap bool) {
+	// a condition carried in a single-assignment boolean local, or negated
+	switch x := ast.Unparen(cond).(type) {
+	case *ast.Ident:
+		if d := pat.DefOf(info, x); d != nil {
+			return e.condKey(info, d)
+		}
+	case *ast.UnaryExpr:
+		if x.Op == token.NOT {
+			if k, sw := e.condKey(info, x.X); k != "?" {
+				return k, !sw
+			}
+		}
+	}
 	if be, ok := ast.Unparen(cond).(*ast.BinaryExpr); ok && (be.Op == token.NEQ || be.Op == token.EQL) {
 		for _, p := range [][2]ast.Expr{{be.X, be.Y}, {be.Y, be.X}} {
 			name := ""
@@ -1136,6 +1213,10 @@ func (e *Extractor) stmt1(info *types.Info, s ast.Stmt) *node {
 	case *ast.EmptyStmt:
 		return nil
 	case *ast.LabeledStmt:
+		if loop, ok := gotoLoop(x); ok {
+			// `L: if c { ...; goto L }` is `for c { ... }`
+			return e.stmt(info, loop)
+		}
 		if stmts, synth, ok := onePass(x); ok {
 			if e.synthRet == nil {
 				e.synthRet = map[*ast.ReturnStmt]*ast.AssignStmt{}
@@ -1331,7 +1412,7 @@ func (e *Extractor) stmt1(info *types.Info, s ast.Stmt) *node {
 						return out
 					}
 				}
-				if ref, ok := e.refOf(info, be.Y); ok {
+				if ref, ok := e.refOf(info, be.Y); ok && stepsCounter(info, x, be.X) {
 					if _, isInc := x.Post.(*ast.IncDecStmt); isInc {
 						out.kids = append(out.kids, &node{kind: "loop", text: ref, kids: []*node{body}})
 						return out
@@ -1343,6 +1424,16 @@ func (e *Extractor) stmt1(info *types.Info, s ast.Stmt) *node {
 				if ref, ok := e.refOf(info, bound); ok {
 					if plusOne {
 						ref += "+1" // `i <= n`: runs once more than the count read
+					}
+					out.kids = append(out.kids, &node{kind: "loop", text: ref, kids: []*node{body}})
+					return out
+				}
+			}
+			// any linear spelling of the test: `i+1 < n`, `i < n-1`, `n-i > 0` ...
+			if bound, off, ok := linCount(info, x); ok {
+				if ref, ok := e.refOf(info, bound); ok {
+					if off != 0 {
+						ref = fmt.Sprintf("%s%+d", ref, off)
 					}
 					out.kids = append(out.kids, &node{kind: "loop", text: ref, kids: []*node{body}})
 					return out
